@@ -11,12 +11,14 @@ import (
 	"encoding/json"
 	"fmt"
 	"math/rand"
+	"net"
 	"os"
 	"path/filepath"
 	"sort"
 	"strings"
 	"sync"
 	"sync/atomic"
+	"syscall"
 	"time"
 
 	"rgverif/internal/common"
@@ -508,6 +510,88 @@ func relay(srv *procs.Server, seed int64, hops int, st *stats) {
 	st.scenarios++
 }
 
+// reusedAddress: a subscriber leaves and, before anything is published, another client arrives from the very same
+// source address (ip:port) and subscribes to the same channel. It is a different connection: the next PUBLISH must
+// reach it and count it.
+func reusedAddress(srv *procs.Server, seed int64, rounds int, st *stats) {
+	pub, err := respc.Dial(srv.Addr, 30*time.Second)
+	if err != nil {
+		return
+	}
+	defer pub.Close()
+	dialFrom := func(port int) (*respc.Client, error) {
+		d := net.Dialer{Timeout: 5 * time.Second, LocalAddr: &net.TCPAddr{IP: net.IPv4(127, 0, 0, 1), Port: port},
+			Control: func(network, address string, c syscall.RawConn) error {
+				return c.Control(func(fd uintptr) { _ = syscall.SetsockoptInt(int(fd), syscall.SOL_SOCKET, syscall.SO_REUSEADDR, 1) })
+			}}
+		var lastErr error
+		for try := 0; try < 200; try++ {
+			c, err := d.Dial("tcp", srv.Addr)
+			if err == nil {
+				return respc.Wrap(c, 10*time.Second), nil
+			}
+			lastErr = err
+			time.Sleep(5 * time.Millisecond)
+		}
+		return nil, lastErr
+	}
+	subscribe := func(c *respc.Client, ch string) bool {
+		if err := c.Send(respc.Cmd("SUBSCRIBE", ch)); err != nil {
+			return false
+		}
+		v, err := c.RecvTimeout(5 * time.Second)
+		return err == nil && !isPush(v) && v.Kind != '-'
+	}
+	done := 0
+	for k := 0; k < rounds; k++ {
+		ch := fmt.Sprintf("reuse:%d:%d", seed%100000, k)
+		port := procs.FreePorts(1)[0]
+		first, err := dialFrom(port)
+		if err != nil {
+			continue
+		}
+		if !subscribe(first, ch) {
+			first.Close()
+			continue
+		}
+		first.Close() // linger 0: the address is free again at once
+		second, err := dialFrom(port)
+		if err != nil {
+			continue // the system did not hand the port out again: nothing observed in this round
+		}
+		if second.Conn.LocalAddr().String() != fmt.Sprintf("127.0.0.1:%d", port) || !subscribe(second, ch) {
+			second.Close()
+			continue
+		}
+		msg := fmt.Sprintf("after-reuse-%d", k)
+		n, err := pub.Do("PUBLISH", ch, msg)
+		st.published++
+		got := false
+		for {
+			v, err := second.RecvTimeout(3 * time.Second)
+			if err != nil {
+				break
+			}
+			if isPush(v) && string(v.Arr[2].Str) == msg {
+				got = true
+				st.delivered++
+				break
+			}
+		}
+		second.Close()
+		done++
+		if err == nil && (!got || n.Kind != ':' || n.Int < 1) {
+			report(witness{Kind: "lost", Detail: fmt.Sprintf("a subscriber of %q disconnected and, before any PUBLISH, a new connection from the same source address 127.0.0.1:%d subscribed (confirmed); the next PUBLISH answered %s and the new subscriber received the message: %v", ch, port, n.String(), got),
+				Sig: "message-lost|subscriber-from-a-reused-source-address"})
+			break
+		}
+	}
+	st.patterns["reused-source-address"] += done
+	if done > 0 {
+		st.scenarios++
+	}
+}
+
 func isPush(v respc.Value) bool {
 	return v.Kind == '*' && len(v.Arr) == 3 && v.Arr[0].Kind == '$' && string(v.Arr[0].Str) == "message" && v.Arr[1].Kind == '$' && v.Arr[2].Kind == '$'
 }
@@ -567,6 +651,7 @@ func main() {
 		}
 		if i%6 == 5 {
 			relay(srv, sc.seed, o.Pick(120, 400), st)
+			reusedAddress(srv, sc.seed, o.Pick(8, 40), st)
 		} else {
 			run(o, srv, sc, st)
 		}
